@@ -358,10 +358,11 @@ func (c *c16Rig) attempt(op, kind string) {
 	if renterAfter != renterBefore {
 		e.Violationf("C16.no-trace", op+":renter-funds:"+kind, "%s failed (%s, renter %s) without the host recording a contract, but the renter wallet changed: spendable %v -> %v", op, kind, c.relation, renterBefore.bal.Spendable, renterAfter.bal.Spendable)
 	}
-	if kind == "none" && err != nil && (strings.Contains(err.Error(), "too close to proof window") || strings.Contains(err.Error(), "exceeds max collateral") || strings.Contains(err.Error(), "exceeds max duration")) {
+	if kind == "none" && err != nil && (strings.Contains(err.Error(), "too close to proof window") || strings.Contains(err.Error(), "exceeds max collateral") || strings.Contains(err.Error(), "exceeds max duration") || strings.Contains(err.Error(), "proof height must be at least")) {
 		// host policy: a contract within the minimum duration of its proof
-		// height can no longer be refreshed or renewed, and refreshes add up to
-		// more collateral than the host's settings allow. Proper refusals,
+		// height can no longer be refreshed or renewed (nor renewed to a proof
+		// height the host, further ahead than the renter, finds too near), and
+		// refreshes add up to more collateral than the host's settings allow. Proper refusals,
 		// leaving no trace (checked above).
 		e.Probe("refused_by_host_policy")
 		c.contract = nil
